@@ -45,10 +45,15 @@ type tuple struct {
 	cipher kex.CipherSuiteID
 	reuse  bool
 	bypass bool
+	opaque bool // the owner services hand their keys out as opaque crypto.Signer values (HSM/KMS/TPM style)
 }
 
 func (t tuple) String() string {
-	return fmt.Sprintf("%s/enc%d/%s/%s/reuse=%v/bypass=%v/pad=%d", t.kind.Name, t.enc, t.suite, t.cipher, t.reuse, t.bypass, t.pad)
+	o := ""
+	if t.opaque {
+		o = "/opaque-owner-keys"
+	}
+	return fmt.Sprintf("%s/enc%d/%s/%s/reuse=%v/bypass=%v/pad=%d%s", t.kind.Name, t.enc, t.suite, t.cipher, t.reuse, t.bypass, t.pad, o)
 }
 
 // valid: the reference validity rule (device and owner keys are of the same kind in this deployment): RSA
@@ -151,6 +156,7 @@ func runTuple(t tuple) {
 	fail := func(key, msg string) { r.Violation(key, t.String()+": "+msg, repl) }
 	w := lab.NewWorld(t.kind, t.enc)
 	w.Owner.Reuse, w.Owner2.Reuse = t.reuse, t.reuse
+	w.Owner.Mem.OpaqueKeys, w.Owner2.Mem.OpaqueKeys = t.opaque, t.opaque
 	if _, err := w.Manufacture(ctx, 1); err != nil {
 		fail("valid-config-fails:DI/extend:"+t.kind.Name, err.Error())
 		return
@@ -276,7 +282,7 @@ func main() {
 				for _, c := range ciphers {
 					for _, reuse := range []bool{false, true} {
 						for _, bypass := range []bool{false, true} {
-							all = append(all, tuple{0, k, enc, s, c, reuse, bypass})
+							all = append(all, tuple{0, k, enc, s, c, reuse, bypass, false})
 						}
 					}
 				}
@@ -307,7 +313,7 @@ func main() {
 	// message-length sweep: every plaintext length residue mod 16 for every cipher suite (block alignment)
 	for _, c := range ciphers {
 		for pad := 1; pad < 16; pad++ {
-			sel = append(sel, tuple{pad, keys.KindByName("ec256"), protocol.X509KeyEnc, kex.ECDH256Suite, c, pad%2 == 0, true})
+			sel = append(sel, tuple{pad, keys.KindByName("ec256"), protocol.X509KeyEnc, kex.ECDH256Suite, c, pad%2 == 0, true, false})
 		}
 	}
 	// boundary keys: EC public points with a leading zero byte in X or in Y, in every encoding (an encoder that
@@ -321,16 +327,32 @@ func main() {
 					if reuse != bypass {
 						c = kex.CoseAes256CbcCipher
 					}
-					sel = append(sel, tuple{0, k, enc, lab.DefaultSuite(k), c, reuse, bypass})
+					sel = append(sel, tuple{0, k, enc, lab.DefaultSuite(k), c, reuse, bypass, false})
 					nBoundary++
 				}
 			}
 		}
 	}
 	r.Set("boundary_key_tuples", nBoundary)
+	// owner keys behind an opaque crypto.Signer: every key type with every key exchange that only SIGNS with the owner
+	// key (the asymmetric key exchange decrypts with it and legitimately needs more than a Signer)
+	nOpaque := 0
+	for _, k := range keys.Kinds {
+		for _, s := range suites {
+			if s == kex.ASYMKEX2048Suite || s == kex.ASYMKEX3072Suite {
+				continue
+			}
+			tp := tuple{0, k, protocol.X509KeyEnc, s, kex.A128GcmCipher, nOpaque%2 == 0, nOpaque%4 < 2, true}
+			if tp.valid() {
+				sel = append(sel, tp)
+				nOpaque++
+			}
+		}
+	}
+	r.Set("opaque_owner_key_tuples", nOpaque)
 	r.Set("product_size", len(all))
 	r.Set("tuples_run", len(sel))
-	r.Rule(fmt.Sprintf("the product {6 key types} x {X509, X5Chain, COSE(EC only)} x {6 key exchanges} x {7 cipher suites} x {reuse, replace} x {via TO0/TO1, rendezvous bypass} has %d tuples; both tiers run all of them. Each tuple runs DI, extension, [TO0, TO1], TO2 (credential through its blob encoding), resale to a second owner and a second TO2 over the real HTTP transport and handler. Valid tuples (reference rule: RSA attestation keys allow every key exchange, P-256 only ECDH256, P-384 only ECDH384) must complete every step, credential and stored voucher must agree (header MAC, key hash, GUID, rendezvous info, certificate hash), every body from SetupDevice on must be a COSE_Encrypt0 / COSE_Mac0 carrying the configured cipher's algorithm id; plus 48 tuples with keys whose public point has a leading zero byte in X or Y (all three encodings); plus, for every cipher suite, 15 runs with the service-info plaintext lengths shifted by 1..15 bytes (block alignment); invalid tuples must fail on the device, produce no SetupDevice and leave the voucher untouched; the HelloDevice on the wire must name the configured suites. distinct = tuples with distinct outcome.", len(all)))
+	r.Rule(fmt.Sprintf("the product {6 key types} x {X509, X5Chain, COSE(EC only)} x {6 key exchanges} x {7 cipher suites} x {reuse, replace} x {via TO0/TO1, rendezvous bypass} has %d tuples; both tiers run all of them. Each tuple runs DI, extension, [TO0, TO1], TO2 (credential through its blob encoding), resale to a second owner and a second TO2 over the real HTTP transport and handler. Valid tuples (reference rule: RSA attestation keys allow every key exchange, P-256 only ECDH256, P-384 only ECDH384) must complete every step, credential and stored voucher must agree (header MAC, key hash, GUID, rendezvous info, certificate hash), every body from SetupDevice on must be a COSE_Encrypt0 / COSE_Mac0 carrying the configured cipher's algorithm id; plus every key type x every non-asymmetric key exchange with the owner keys handed out as opaque crypto.Signer values; plus 48 tuples with keys whose public point has a leading zero byte in X or Y (all three encodings); plus, for every cipher suite, 15 runs with the service-info plaintext lengths shifted by 1..15 bytes (block alignment); invalid tuples must fail on the device, produce no SetupDevice and leave the voucher untouched; the HelloDevice on the wire must name the configured suites. distinct = tuples with distinct outcome.", len(all)))
 	var wg sync.WaitGroup
 	sem := make(chan struct{}, 16)
 	for _, t := range sel {
